@@ -155,7 +155,7 @@ def run_history(seed, steps_max=30, with_matrix_args=True):
     for step in range(nsteps):
         sh = rng.choice(live)
         src = sh.real
-        op = rng.choice(["assign", "assign", "assign_unlabelled", "assign_swap", "assign_swap", "assign_same", "shallow", "shallow_fresh_assign", "deep",
+        op = rng.choice(["assign", "assign", "assign_unlabelled", "assign_swap", "assign_swap", "assign_same", "assign_other_length", "shallow", "shallow_fresh_assign", "deep",
                          "deep_mutate", "repop", "stats", "optimise", "relabel", "full_round"])
         trace.append(op)
         try:
@@ -203,6 +203,29 @@ def run_history(seed, steps_max=30, with_matrix_args=True):
                     for k, cell in enumerate(sh.cells):
                         cell.members = [x for x, l in enumerate(new) if l == k]
                     bump("assign_swap")
+            elif op == "assign_other_length" and sh.labels is not None:
+                # a labelling of ANOTHER length that agrees with the current one on the common prefix (a model trained on part of a
+                # recording is used to label the longer recording).  Done on a private copy that takes no further part in the history.
+                n = src.shallow_copy()
+                n.clusters = [c.deep_copy() for c in n.clusters]
+                cur = list(sh.labels)
+                if rng.random() < 0.6:
+                    new = cur + [rng.randrange(K) for _ in range(rng.randrange(1, 12))]
+                else:
+                    new = cur[:max(1, len(cur) - rng.randrange(1, 6))]
+                n.point_labels = list(new)
+                got = list(n.point_labels) if n.point_labels is not None else None
+                if got != new:
+                    viol.append("after assigning %d labels to a state that held %d (equal on the common prefix) the state reports %s labels" % (
+                        len(new), len(cur), len(got) if got is not None else None))
+                else:
+                    for k, c in enumerate(n.clusters):
+                        want = [i for i, l in enumerate(new) if l == k]
+                        if [int(x) for x in c.member_points] != want:
+                            viol.append("after assigning a labelling of another length (%d -> %d points) cluster %d's members are not the points "
+                                        "labelled %d" % (len(cur), len(new), k, k))
+                            break
+                bump("assign_other_length")
             elif op == "assign_same" and sh.labels is not None:
                 src.point_labels = list(sh.labels)
                 bump("assign_same")
